@@ -180,7 +180,9 @@ func (e *kvElection) handleWatchEvent(entry Entry) {
 					zap.Uint64("revision", entry.Revision()),
 				)...,
 			)
-			e.becomeFollower()
+			if e.becomeFollower() {
+				e.notifyDemoted("leadership_lost_via_watcher")
+			}
 		}
 		return
 	}
